@@ -58,6 +58,10 @@ pub const EVENTS: &[Event] = &[
     Event::RemoveDir("src/util"),
     Event::RemoveFile("src/pkg/top.lua"),
     Event::RemoveDir("src/pkg/deep"),
+    // a directory that only holds a file pulled in by bundling; a file that comes before a bundled one in the resolution order
+    Event::RemoveDir("vendor"),
+    Event::Add("vendor/v.lua"),
+    Event::Add("src/lib/b.luau"),
     Event::Rename("src/solo.lua", "src/solo2.lua"),
     Event::SetConfig(1),
     Event::SetConfig(2),
@@ -257,7 +261,7 @@ impl World {
                     }
                     Event::Add(f) => {
                         if store.get(f).is_none() {
-                            let body = if f.ends_with("b.lua") { "-- b v0\nreturn 'b0'\n".to_owned() } else { format!("-- {} v0\nreturn 'n0'\n", f) };
+                            let body = if f.ends_with("b.lua") { "-- b v0\nreturn 'b0'\n".to_owned() } else if f.ends_with("v.lua") { "-- v v0\nreturn 'v0'\n".to_owned() } else { format!("-- {} v0\nreturn 'n0'\n", f) };
                             store.write(f, &body);
                             has_created = true;
                         }
@@ -327,8 +331,18 @@ fn replay(history: &[Vec<Event>], on_disk: bool) -> Result<World, String> {
 
 /// the oracle: a fresh run over the final inputs and configuration
 fn judge(w: &World) -> Vec<String> {
+    judge_hiding(w, None)
+}
+
+/// `hidden`: bug model of the known finding `new-file-earlier-in-the-resolution-order-is-not-noticed` - the fresh run does
+/// not see that source (as if it had not been created) and its own output is not compared
+fn judge_hiding(w: &World, hidden: Option<&str>) -> Vec<String> {
     let mut problems = Vec::new();
-    let files = list_files(&w.store);
+    let mut files = list_files(&w.store);
+    if let Some(h) = hidden {
+        files.remove(h);
+        files.remove(&format!("out/{}", &h[4..]));
+    }
     let on_disk = w.store.root.is_some();
     let guard = if on_disk { tempfile::tempdir().ok() } else { None };
     let fresh = Store { res: if on_disk { Resources::from_file_system() } else { Resources::from_memory() }, root: guard.as_ref().map(|g| g.path().to_path_buf()) };
@@ -648,7 +662,19 @@ fn explore(on_disk: bool, tier: Tier, report: &mut Report) -> (usize, usize) {
                 let mut h = frontier[*i].clone();
                 h.push(menu[*j].clone());
                 let r = replay(&h, on_disk).map(|w| {
-                    let problems = judge(&w);
+                    let mut problems = judge(&w);
+                    // attribute to the known finding only when hiding the newly created, shadowing file explains everything
+                    const SHADOWING: &str = "src/lib/b.luau";
+                    if !problems.is_empty() && w.store.get(SHADOWING).is_some() && w.store.get("src/lib/b.lua").is_some() {
+                        // per output: work that ran again since the file was created saw it, the rest did not. Every output
+                        // that differs from the fresh run must equal the run that does not see the file, and nothing else may be wrong
+                        let differing = |ps: &[String]| -> Option<Vec<String>> { ps.iter().map(|p| p.split(" differs from a fresh run").next().filter(|_| p.contains(" differs from a fresh run")).map(|s| s.to_owned())).collect() };
+                        if let (Some(full), Some(hidden)) = (differing(&problems), differing(&judge_hiding(&w, Some(SHADOWING)))) {
+                            if full.iter().all(|p| !hidden.contains(p)) {
+                                problems.insert(0, "KNOWN:new-file-earlier-in-the-resolution-order-is-not-noticed".to_owned());
+                            }
+                        }
+                    }
                     let outcome = hash128(&format!("{:?}", list_files(&w.store).iter().filter(|(p, _)| p.starts_with("out/")).collect::<Vec<_>>()));
                     (w.key(), problems, outcome)
                 });
@@ -725,6 +751,6 @@ pub fn run(tier: Tier) -> Report {
     report
 }
 
-fn classify(_history: &[Vec<Event>], _problems: &[String]) -> Option<String> {
-    None
+fn classify(_history: &[Vec<Event>], problems: &[String]) -> Option<String> {
+    problems.first().and_then(|p| p.strip_prefix("KNOWN:")).map(|s| s.to_owned())
 }
